@@ -70,6 +70,15 @@ def run(res, ctx):
         paths = []
         for i, s in enumerate(sources):
             p = os.path.join(root, f"f{i}.py"); open(p, "w").write(s); paths.append(p)
+        # files that are SKIPPED (not valid Python 3) placed so that each sorts immediately before a file with findings: what happens to a skipped
+        # file must not touch its neighbours (seeded change C08-m3 removed skipped files from the list being iterated)
+        for i in (0, 2, len(sources) - 1):
+            p = os.path.join(root, f"f{i}.a_skipped.py"); open(p, "w").write("print 'python 2 statement'\nimport pickle\n"); paths.append(p)
+        # a file deep enough to exhaust the interpreter's recursion limit, followed by one whose B608 analysis sits between the limits of the check and of
+        # the visitor: whatever the first does to the process must not change what the second yields (seeded change C08-m4 raised the limit for good)
+        p = os.path.join(root, "f0.b_deep.py"); open(p, "w").write("x = " + " + ".join("v%d" % i for i in range(2000)) + "\n"); paths.append(p)
+        p = os.path.join(root, "f0.c_sql.py"); open(p, "w").write("q = 'SELECT * FROM t WHERE a = ' + " + " + ".join("v%d" % i for i in range(700)) + "\n"); paths.append(p)
+        paths.sort()
 
         def scan(ps):
             import linecache
